@@ -41,7 +41,7 @@ NormNode(p) ==
         rcnt |-> p.rcnt, noopIdx |-> p.noopIdx, chgIdx |-> p.chgIdx, hist |-> p.hist, ver |-> p.ver,
         ready |-> p.ready, force |-> p.force, lse |-> p.lse, needLoad |-> p.needLoad, serPid |-> p.serPid,
         serId |-> p.serId, snap |-> p.snap, trans |-> p.trans, incoming |-> p.incoming,
-        rocnt |-> p.rocnt, roid |-> p.roid, metaCommit |-> p.metaCommit]
+        rocnt |-> p.rocnt, roid |-> p.roid, metaCommit |-> p.metaCommit, names |-> p.names, codeVer |-> p.codeVer]
 
 Steps(t) == Traces[t].steps
 Full(t) == Steps(t)[1].full
@@ -157,8 +157,8 @@ TNext ==
      /\ lastTick' = IF e.a[1] = "Tick" THEN e.a[2]
                     ELSE IF e.a[1] = "KillAt" /\ e.a[4][1] = "Tick" THEN e.a[2] ELSE Nil
      /\ GNextWith(IF Has(e, "atkill") THEN {[hist |-> e.atkill.hist, log |-> e.atkill.log, commit |-> e.atkill.commit, term |-> e.atkill.term]} ELSE {})
-     /\ LET d == StepDiff(e)
-            rel == Relational(e)
+     /\ LET d == IF Conform THEN StepDiff(e) ELSE {}
+            rel == IF Conform THEN Relational(e) ELSE TRUE
             bad == StepViolations \cup StateViolations'
         IN /\ ndrift' = IF d = {} /\ rel THEN ndrift
                         ELSE IF PrintT(<<"DRIFT", tid, l, e.a, d, rel>>) THEN ndrift + 1 ELSE ndrift + 1
